@@ -41,7 +41,8 @@ package contexttags
 //@   requires b != nil
 //@   ensures len(result) == len(tagsOf(b))
 //@   ensures[C03] safeSeq(result)
-//@   loop redactableTagsIterate.1: invariant len(res) == len(tagsOf(b)) && safeSeq(res)
+//@   loop redactableTagsIterate.1: invariant len(res) == len(tagsOf(b))
+//@           invariant[C03] safeSeq(res)
 
 //@ func redactableTagsIterate
 //@   props C03 C05
